@@ -123,6 +123,11 @@ func (b *libBuilder) args(owner, field string, defs []*model.ArgDef) graphql.Fie
 		if f := b.has("nilArgConfig", owner, field); f != nil && f.Arg == a.Name {
 			cfg = nil
 		}
+		if cfg == nil {
+			// the argument's configuration is nil: the other argument faults have nothing to act on
+			out[name] = cfg
+			continue
+		}
 		if f := b.has("nilArgType", owner, field); f != nil && f.Arg == a.Name {
 			cfg.Type = nil
 		}
